@@ -395,13 +395,22 @@ func (r *sysRun) doWrite(o op, rng *vh.Rng) bool {
 		return false
 	}
 	r.done = append(r.done, o)
+	inPH := r.inputWith(nil)
 	r.ask("rw.write "+modelSpec(ts), func(ans string) {
 		if i := strings.Index(ans, " CORRUPTED "); i >= 0 {
 			r.asyncReb = true
 		}
+		if strings.Contains(ans, "PARTHIST-DIFFERS") {
+			res.Mismatch(vh.Mismatch{Section: r.section, Function: "Points-level partition model of the history theorem (PartHist: pieces → ChunkHist.onWrite) vs the pipeline model (write loop → cindex on the tree)", Input: inPH, Impl: "pipeline model", Model: short(ans)})
+		}
 	})
 	// a chunk answered ErrTmIndexCorrupted is rebuilt by the asynchronous rebuilder (awaited above); the driver does the same
-	r.ask("rw.autorebuild", func(string) {})
+	inW := r.inputWith(nil)
+	r.ask("rw.autorebuild", func(ans string) {
+		if ans != "ok" {
+			res.Mismatch(vh.Mismatch{Section: r.section, Function: "Points-level rebuild (RebuildHist.rebuildPts) vs the tree-level rebuild model", Input: inW, Impl: "tree", Model: ans})
+		}
+	})
 	r.compareIndexState("write", rng)
 	return true
 }
@@ -440,7 +449,12 @@ func (r *sysRun) doRebuild(o op, rng *vh.Rng) bool {
 		}
 	}
 	r.done = append(r.done, op{Kind: "rebuild"}) // for reproduction a synchronous rebuild of every chunk gives the same state
-	r.ask("rw.rebuild all", func(string) {})
+	inR := r.inputWith(nil)
+	r.ask("rw.rebuild all", func(ans string) {
+		if ans != "ok" {
+			res.Mismatch(vh.Mismatch{Section: r.section, Function: "Points-level rebuild (RebuildHist.rebuildPts) vs the tree-level rebuild model", Input: inR, Impl: "tree", Model: ans})
+		}
+	})
 	r.compareIndexState("rebuild", rng)
 	return true
 }
